@@ -170,6 +170,14 @@ func genTypes(t *rapid.T, p *Project, pf Profile) *typeCtx {
 		p.Types = append(p.Types, d)
 		ctx.structs = append(ctx.structs, Named(spkgs[i], names[i]))
 	}
+	if pf.StrayController && rapid.IntRange(0, 2).Draw(t, "strayController") == 0 {
+		// a fully annotated controller that lives in a type package, i.e. outside the configured globs:
+		// gleece loads that package because routes use its types, yet the controller is not part of the API
+		pkg := pickPkg()
+		p.Types = append(p.Types, &TypeDecl{Name: "strayController", Pkg: pkg, File: "stray.go", Kind: "raw", Imports: []string{"github.com/gopher-fleece/runtime"},
+			Raw: "// StrayController is not matched by commonConfig.controllerGlobs.\n// @Tag(Stray)\n// @Route(/stray)\ntype StrayController struct {\n\truntime.GleeceController\n}\n\n" +
+				"// StrayOp must never be documented or served.\n// @Method(GET)\n// @Route(/stray-op)\nfunc (c *StrayController) StrayOp() error {\n\treturn nil\n}"})
+	}
 	return ctx
 }
 
